@@ -1,7 +1,8 @@
 // /verif harness for C18 (tla/Sleep.tla, SleepApi.tla, SleepTrace.tla; checks/c18.py).
 //
 // (A) white-box ops on a synthetic mjModel/mjData pair that holds only what src/engine/engine_sleep.c reads:
-//     NT trees of one body and one dof each (tree t = body t+1 = dof t = geom t+1), world body 0, a mocap body NT+1.
+//     NT trees of one body and one dof each (tree t = body t+1 = dof t = geom t+1), world body 0, a mocap body NT+1,
+//     its jointless child NT+2 and grandchild NT+3 (endpoints -2, -3, -4 of contacts / equalities; -1 = world).
 //     The phase functions of one mj_step are called exactly as mj_fwdPosition / mj_advance call them
 //     (mj_updateSleep only if the function reports a change).
 //   wb_new <NT> <never csv|-> <eqs x:y,..|-> <disableflags>        -> ok
@@ -52,16 +53,18 @@ static std::vector<int> ints(const std::string& s) {
   for (auto& x : drv_csv(s)) v.push_back(atoi(x.c_str()));
   return v;
 }
-static int wb_body(int z, int nt) { return z >= 0 ? z + 1 : (z == -2 ? nt + 1 : 0); }
+static int wb_body(int z, int nt) { return z >= 0 ? z + 1 : (z == -2 ? nt + 1 : z == -3 ? nt + 2 : z == -4 ? nt + 3 : 0); }
 
 static void wb_make(int nt, const std::vector<int>& never, const std::vector<std::pair<int, int>>& eqs, int disable) {
   delete wb; wb = new WB; WB& w = *wb; w.nt = nt;
   memset(&w.m, 0, sizeof w.m); memset(&w.d, 0, sizeof w.d);
-  int nb = nt + 2, neq = (int)eqs.size();
+  int nb = nt + 4, neq = (int)eqs.size();
   w.body_treeid.assign(nb, -1); w.body_parentid.assign(nb, 0); w.body_rootid.assign(nb, 0); w.body_mocapid.assign(nb, -1);
   for (int b = 1; b < nb; b++) w.body_rootid[b] = b;
   for (int t = 0; t < nt; t++) w.body_treeid[t + 1] = t;
   w.body_mocapid[nt + 1] = 0;
+  w.body_parentid[nt + 2] = nt + 1; w.body_rootid[nt + 2] = nt + 1;     // jointless child of the mocap body
+  w.body_parentid[nt + 3] = nt + 2; w.body_rootid[nt + 3] = nt + 1;     // and grandchild
   w.dof_bodyid.resize(nt); w.dof_treeid.resize(nt); w.tree_bodyadr.resize(nt); w.tree_bodynum.assign(nt, 1);
   w.tree_dofadr.resize(nt); w.tree_dofnum.assign(nt, 1); w.tree_sleep_policy.assign(nt, mjSLEEP_AUTO_ALLOWED);
   w.dof_length.assign(nt, 1.0);
@@ -211,7 +214,8 @@ static bool wb_ops(const std::vector<std::string>& t, const std::vector<std::str
 static int tree_or_static(const mjModel* m, int body) {
   int t = m->body_treeid[body];
   if (t >= 0) return t;
-  return m->body_mocapid[m->body_rootid[body]] >= 0 ? -2 : -1;
+  if (m->body_mocapid[body] >= 0) return -2;                           // mocap body
+  return m->body_mocapid[m->body_rootid[body]] >= 0 ? -3 : -1;         // carried by a mocap body : static
 }
 static void tree_qpos_range(const mjModel* m, int t, int* adr, int* num) {
   int lo = m->nq, hi = 0;
@@ -295,8 +299,8 @@ static bool real_ops(const std::vector<std::string>& t, const std::vector<std::s
     printf("\"con\":[");
     for (int c = 0; c < d->ncon; c++) {
       const mjContact& k = d->contact[c];
-      int x = k.geom[0] >= 0 ? tree_or_static(m, m->geom_bodyid[k.geom[0]]) : -3;
-      int y = k.geom[1] >= 0 ? tree_or_static(m, m->geom_bodyid[k.geom[1]]) : -3;
+      int x = k.geom[0] >= 0 ? tree_or_static(m, m->geom_bodyid[k.geom[0]]) : -9;
+      int y = k.geom[1] >= 0 ? tree_or_static(m, m->geom_bodyid[k.geom[1]]) : -9;
       printf("%s[%d,%d,%d]", c ? "," : "", x, y, k.exclude);
     }
     printf("],\"contw\":[");
@@ -304,8 +308,8 @@ static bool real_ops(const std::vector<std::string>& t, const std::vector<std::s
       mjData* d2 = D(tw);
       for (int c = 0; c < d2->ncon; c++) {
         const mjContact& k = d2->contact[c];
-        int x = k.geom[0] >= 0 ? tree_or_static(m, m->geom_bodyid[k.geom[0]]) : -3;
-        int y = k.geom[1] >= 0 ? tree_or_static(m, m->geom_bodyid[k.geom[1]]) : -3;
+        int x = k.geom[0] >= 0 ? tree_or_static(m, m->geom_bodyid[k.geom[0]]) : -9;
+        int y = k.geom[1] >= 0 ? tree_or_static(m, m->geom_bodyid[k.geom[1]]) : -9;
         printf("%s[%d,%d,%d]", c ? "," : "", x, y, k.exclude);
       }
     }
